@@ -214,7 +214,7 @@ struct KeystoreWorld : World {
         c.residue = residue;
         for (int i = 0; i < NSLOT; ++i)
             for (int h = 0; h < 2; ++h) {
-                c.s[i].mem[h] = (uint8_t *)aligned_alloc(64, sizeof(AnyKey) + 64);
+                c.s[i].mem[h] = (uint8_t *)aalloc(64, sizeof(AnyKey) + 64);
                 memset(c.s[i].mem[h], h ? 0xEE : 0x11, sizeof(AnyKey) + 64);
             }
         int idx = 0;
